@@ -108,4 +108,41 @@ def reported (own : Option Int) (idx : Nat) (lay : List (Nat × Str × Option In
           | none => none
           | some (_, mv) => mv
 
+/-! ### overriding inherited geometry (`_InheritsDimensions._set_dimension`) -/
+
+/-- a placeholder's own `a:xfrm`: `a:off` and `a:ext` each hold BOTH values of their pair or are absent -/
+structure OwnGeom where
+  off : Option (Int × Int)
+  ext : Option (Int × Int)
+deriving Repr, DecidableEq
+
+/-- what the placeholder it inherits from reports: left, top, width, height -/
+structure Inh where
+  left : Option Int
+  top : Option Int
+  width : Option Int
+  height : Option Int
+deriving Repr, DecidableEq
+
+inductive Dim | left | top | width | height
+deriving Repr, DecidableEq
+
+/-- the four effective readings: the own value when the element is there, otherwise the inherited one -/
+def readDim (o : OwnGeom) (i : Inh) : Dim → Option Int
+  | .left => match o.off with | some (x, _) => some x | none => i.left
+  | .top => match o.off with | some (_, y) => some y | none => i.top
+  | .width => match o.ext with | some (w, _) => some w | none => i.width
+  | .height => match o.ext with | some (_, h) => some h | none => i.height
+
+/-- `_set_dimension`: the value is written into the element of its pair; when that element did not exist its other
+    value is what the placeholder reported so far (0 when it reported nothing: `a:off` / `a:ext` cannot hold one value) -/
+def setDim (o : OwnGeom) (i : Inh) (d : Dim) (v : Int) : OwnGeom :=
+  match d with
+  | .left => { o with off := some (v, match o.off with | some (_, y) => y | none => i.top.getD 0) }
+  | .top => { o with off := some (match o.off with | some (x, _) => x | none => i.left.getD 0, v) }
+  | .width => { o with ext := some (v, match o.ext with | some (_, h) => h | none => i.height.getD 0) }
+  | .height => { o with ext := some (match o.ext with | some (w, _) => w | none => i.width.getD 0, v) }
+
+def runDims (o : OwnGeom) (i : Inh) (ops : List (Dim × Int)) : OwnGeom := ops.foldl (fun o op => setDim o i op.1 op.2) o
+
 end Pptx.Placeholder
